@@ -229,7 +229,8 @@ class Exit:
         V = []
         dt = 0.1
         nsteps = 12
-        T = sign * dt * nsteps
+        # with exact finishing the target lies half a step behind the last full boundary: the last step is a shortened one
+        T = sign * dt * (nsteps + (0.5 if exact else 0.0))
         tag = "%s exit=%s at boundary %s dir=%+d exact=%d" % (integ, kind, when, sign, exact)
         # exit-free trajectory, recorded at every step boundary by a heartbeat
         sim = self.setup(integ, kind, dt, sign)
@@ -257,6 +258,8 @@ class Exit:
                 return V
             if k < nb and (sim.t != snaps[k][0] or sim._status != 5):
                 V.append(("stop-boundary:%s" % integ, "reb_simulation_stop at boundary %d (t=%r): integrate returned at t=%r with status %d [%s]" % (k, snaps[k][0], sim.t, sim._status, tag)))
+            if integ in FIXED and abs(sim.dt) != dt:
+                V.append(("dt-not-restored-after-exit:stop:%s" % integ, "after a user stop at boundary %d the step size is %r, the user's is %r [%s]" % (k, sim.dt, sign * dt, tag)))
             return V
         if kind == "noparticles":
             sim = self.setup(integ, kind, dt, sign)
@@ -341,6 +344,8 @@ class Exit:
         else:
             if not isinstance(raised, exc_t):
                 V.append(("exit-wrong-exception:%s:%s" % (kind, integ), "expected %s, got %s: %s [%s]" % (exc_t.__name__, type(raised).__name__, raised, tag)))
+            if integ in FIXED and abs(sim.dt) != dt:
+                V.append(("dt-not-restored-after-exit:%s:%s" % (kind, integ), "after %s at boundary %d the step size is %r, the user's is %r [%s]" % (type(raised).__name__, first, sim.dt, sign * dt, tag)))
             if sim.t != snaps[first][0]:
                 kk = [k for k, s in enumerate(snaps) if s[0] == sim.t]
                 V.append(("exit-boundary:%s:%s" % (kind, integ), "condition first true at boundary %d (t=%r) but integrate stopped at t=%r (boundary %s) [%s]" % (first, snaps[first][0], sim.t, kk, tag)))
@@ -440,7 +445,7 @@ def run(ctx):
         for kind in ("escape", "encounter", "collision", "stop", "noparticles"):
             if integ.endswith("_var") and kind in ("collision", "noparticles"):
                 continue
-            for when in (0, 1, 2, 5, 12):
+            for when in (0, 1, 2, 5, 12, 13):
                 for sign in (1, -1):
                     for exact in (0, 1):
                         if kind == "collision" and when != 0:
